@@ -91,6 +91,7 @@ var checks = []Check{
 			Harness{Fn: "ZZC12Literal", Expect: []string{"literal-ok", "witness:end"}},
 		)},
 		Assumptions: []string{
+			"ZZC12Literal: a three-key map literal evaluated repeatedly (function called twice, loop body, element of an outer literal) with 11 operations on the first instance",
 			"keys are never inspected by the map code, so a small key alphabet stands for all keys (data independence: stated, not proved)",
 			"pre-states are built by a map literal of every ordered subset of the alphabet; values are unconstrained float64",
 		},
@@ -119,6 +120,7 @@ var checks = []Check{
 			Harness{Fn: "ZZC13IsIdent", Quick: p("NI", 2), Thorough: p("NI", 3), Expect: []string{"witness:end"}},
 		)},
 		Assumptions: []string{
+			"ZZC13Strings: join, split, index, startswith, endswith, trim, replace, upper, lower, sprint, print over a 15-string alphabet (empty, separators at the edges and doubled, non-ASCII) against naive reference implementations over code points written from docs/builtins.md",
 			"math.Mod/Pow/Log/Sin/Cos/Atan2 are uninterpreted functions (equal arguments give equal results); Abs/Floor/Ceil/Round/Sqrt/Min/Max are FP-theory terms with Go's NaN/±0/±Inf rules",
 			"(*rand.Rand).Int31n(n) is a contract stub: host panic for n<=0, otherwise any r with 0<=r<n; Float64 any r in [0,1)",
 			"strconv.ParseFloat/ParseBool/Quote and fmt verbs are the Go standard library's (native bridge on concrete strings)",
@@ -138,6 +140,7 @@ var checks = []Check{
 			Harness{Fn: "ZZC14Event", Quick: p("KE", 40), Thorough: p("KE", 40), Expect: []string{"ev-stopped", "ev-done", "witness:end"}},
 		)},
 		Assumptions: []string{
+			"ZZC14Density: 7 loop / recursion kinds x 5 body kinds (comment only, blank lines and comment, statement, call, nested block with a comment): n+d iterations give at least d more yields than n; four long loops with comment-only bodies in ZZC14Stop",
 			"the platform is a recording stub; its yielder raises Evaluator.Stopped at a symbolic yield number k in [1,K]",
 			"program family: endless while, numeric/array/string/map ranges, recursion, endless mutual recursion, tests before an endless loop, nested loops with break",
 		},
@@ -153,12 +156,13 @@ var checks = []Check{
 			Harness{Fn: "ZZC15Events", Quick: p("E", 2, "H", 1), Thorough: p("E", 3, "H", 2), ThoroughBudget: 25 * time.Minute, Expect: []string{"events-ok", "witness:end"}},
 			Harness{Fn: "ZZC15Scopes", Quick: p("NE", 2, "SD", 2, "SL", 2), Thorough: p("NE", 3, "SD", 2, "SL", 2), Expect: []string{"scopes-ok", "witness:end"}},
 		)},
-		Assumptions: []string{"numeric payloads are unconstrained float64, string payloads from a 4-string alphabet incl. empty and non-ASCII", "handlers are delivered only events whose name has a handler (HandleEvent panics otherwise by contract, as pkg/wasm guards)"},
-		Outside:     []string{"event sequences longer than E; more than H handlers per program; pkg/wasm event decoding"},
-		LevelText:   "bounded symbolic execution of parseEventHandler/addEventParamsToScope/evalProgram/HandleEvent/pushFuncScope/valueFromAny: every rotation of H handler kinds x every accepted signature form (full, empty, `_`) x every event sequence of length E, numeric payloads symbolic; the cumulative trace and globals are compared after every event with the procedure-call semantics",
-		LevelNote:   "trusts the expected-trace oracle in the harness, the engine and cvc5",
-		DesignRef:   "DESIGN.md §6 C15",
-		Technique:   technique,
+		Assumptions: []string{
+			"the program declares globals named like every handler parameter; they must keep their values", "numeric payloads are unconstrained float64, string payloads from a 4-string alphabet incl. empty and non-ASCII", "handlers are delivered only events whose name has a handler (HandleEvent panics otherwise by contract, as pkg/wasm guards)"},
+		Outside:   []string{"event sequences longer than E; more than H handlers per program; pkg/wasm event decoding"},
+		LevelText: "bounded symbolic execution of parseEventHandler/addEventParamsToScope/evalProgram/HandleEvent/pushFuncScope/valueFromAny: every rotation of H handler kinds x every accepted signature form (full, empty, `_`) x every event sequence of length E, numeric payloads symbolic; the cumulative trace and globals are compared after every event with the procedure-call semantics",
+		LevelNote: "trusts the expected-trace oracle in the harness, the engine and cvc5",
+		DesignRef: "DESIGN.md §6 C15",
+		Technique: technique,
 	},
 }
 
